@@ -2,6 +2,7 @@
 against the Coq model Evo.ResultMerge (bit-exact at F_ops: left-to-right sums, one division)."""
 import copy
 import csv
+import math
 import os
 import shutil
 import tempfile
@@ -280,9 +281,10 @@ def judge(case, val, out):
 
 def judge_merge(case, val, out):
     code, body = val
-    if out.get("inputs_unchanged") is False or out.get("independent") is False:
-        return {"kind": "spec-violation", "failing_input": True, "detail": "an input result was modified (or shares data with the merge)"}
     spec = _spec_merge(case, out)
+    if out.get("inputs_unchanged") is False or out.get("independent") is False:
+        return {"kind": "spec-violation", "failing_input": True,
+                "detail": "an input result was modified (or shares data with the merge)" + ("; " + spec if spec else "")}
     if spec is not None:
         return {"kind": "spec-violation", "failing_input": True, "detail": spec}
     if len(case["results"]) == 1 and not out.get("same_object_as_first"):
@@ -359,8 +361,11 @@ def _judge_table(case, val, out):
         return {"kind": "spec-violation", "failing_input": True,
                 "detail": "table labels %r differ from the expected labels %r" % ([r[0] for r in got], [r[0] for r in rows])}
     for (lab, cells), (_, stats) in zip(got, rows):
-        want = sorted((k, hexf(v)) for k, v in stats)
-        have = sorted((k, hexf(float(c))) for k, c in cells)
+        # a statistic stored as NaN has no number to show: its cell may be empty or spell nan (empty cells are ignored);
+        # every other statistic of the file must be in the row with the identical value
+        nan_keys = set(k for k, v in stats if math.isnan(v))
+        want = sorted((k, hexf(v)) for k, v in stats if k not in nan_keys)
+        have = sorted((k, hexf(float(c))) for k, c in cells if not (k in nan_keys and math.isnan(float(c))))
         if want != have:
             return {"kind": "spec-violation", "failing_input": True,
                     "detail": "row %r: cells %r are not exactly the statistics %r" % (lab, have, want)}
@@ -517,6 +522,42 @@ def random_merge_cases(ctx):
     return out
 
 
+def identical_value_cases(ctx):
+    """lists of 2..8 results that agree in info, statistics and every shared array (the same estimate evaluated several
+    times / the same file given more than once) - all copies identical, or ONE result (first, middle or last; 'any input
+    order') carrying one extra or one missing array / statistic key: 'key sets ... differing in one key' must be refused
+    whatever the values are, also when one key set is a strict subset of the other"""
+    rng = ctx.np_rng(11)
+    out = []
+    for c in range(ctx.n(120, 1200)):
+        n = int(rng.integers(2, 9))
+        ks = [str(k) for k in rng.choice(KEYS, size=int(rng.integers(0, 5)), replace=False)]
+        aks = [str(k) for k in rng.choice(AKEYS, size=int(rng.integers(0, 4)), replace=False)]
+        st = [(k, _val(rng)) for k in ks]
+        ar = [(k, [_val(rng) for _ in range(int(rng.integers(0, 5)))]) for k in aks]
+        tag = int(rng.integers(0, 4))
+        rs = [R(st, ar, tag) for _ in range(n)]
+        mode = c % 6   # 0 all identical; 1/2 one result has an extra array key; 3 extra statistic; 4 one key missing; 5 two results
+        if mode in (1, 2, 3, 4, 5):
+            # position of the odd result: a LATER one twice as often as the first (superset after subset and the reverse)
+            i = int(rng.choice([0, n - 1, int(rng.integers(0, n)), int(rng.integers(1, n))]))
+            idx = [i] if mode != 5 else sorted(set([i, int(rng.integers(0, n))]))
+            which = "stats" if mode == 3 or (mode == 5 and rng.random() < 0.3) else "arrays"
+            for i in idx:
+                if mode == 4 and rs[i][which]:
+                    del rs[i][which][int(rng.integers(0, len(rs[i][which])))]
+                elif which == "stats":
+                    rs[i]["stats"].append(["extra", hexf(_val(rng))])
+                else:
+                    free = [k for k in AKEYS if k not in aks] + ["extra"]
+                    rs[i]["arrays"].append([free[int(rng.integers(0, len(free)))],
+                                            [hexf(_val(rng)) for _ in range(int(rng.integers(0, 4)))]])
+                if rng.random() < 0.3:
+                    rng.shuffle(rs[i][which])
+        out.append(M(*rs))
+    return out
+
+
 def table_cases(ctx):
     rng = ctx.np_rng(2)
     out = []
@@ -537,6 +578,35 @@ def table_cases(ctx):
                 f.update({"via": "ape" if i % 2 == 0 else "rpe", "via_seed": int(rng.integers(0, 10 ** 6)), "via_n": int(rng.integers(5, 30))})
             files.append(f)
         out.append({"kind": "table", "files": files, "use_filenames": bool(c % 3 == 1), "merge": bool(c % 4 == 3)})
+    return out
+
+
+def nan_table_cases(ctx):
+    """evo_res --save_table on 2..4 result files of which ONE OR TWO store not-a-number (or infinite) values for some of their
+    statistics (what evo_ape writes for a trajectory with a NaN position), or lack one statistic the others have: 'for every
+    input result file, exactly the statistics stored in that file' - the finite statistics of the other files stay in the table"""
+    rng = ctx.np_rng(23)
+    out = []
+    for c in range(ctx.n(24, 200)):
+        n = int(rng.integers(2, 5))
+        ks = [str(k) for k in rng.choice(KEYS, size=int(rng.integers(1, 6)), replace=False)]
+        odd = set(int(i) for i in rng.choice(n, size=int(rng.integers(1, min(n, 3))), replace=False))
+        mode = c % 4     # 0 all statistics of the odd file NaN, 1 some NaN, 2 NaN / inf mixed, 3 one statistic missing in the odd file
+        files = []
+        for i in range(n):
+            st = [(k, _val(rng)) for k in ks]
+            if i in odd:
+                if mode == 3 and len(st) > 1:
+                    del st[int(rng.integers(0, len(st)))]
+                else:
+                    hit = [j for j in range(len(st)) if mode == 0 or rng.random() < 0.5] or [0]
+                    for j in hit:
+                        st[j] = (st[j][0], float("nan") if mode != 2 or rng.random() < 0.5 else float(rng.choice([np.inf, -np.inf])))
+            ln = int(rng.integers(1, 5))
+            f = R(st, [("error_array", [abs(_val(rng)) for _ in range(ln)]), ("timestamps", [float(j) for j in range(ln)])], i)
+            f.update({"fname": "res_%d.zip" % i, "est_name": [None, "est%d.txt" % i, "/data/run_%d/traj.tum" % i][int(rng.integers(0, 3))]})
+            files.append(f)
+        out.append({"kind": "table", "files": files, "use_filenames": bool(c % 3 == 1), "merge": False})
     return out
 
 
@@ -586,7 +656,7 @@ def run(ctx, replay=None, proofs_ok=True):
     if replay is not None:
         cases = [replay["case"]]
     else:
-        cases = CORPUS + random_merge_cases(ctx) + table_cases(ctx) + cli_order_cases(ctx)
+        cases = CORPUS + random_merge_cases(ctx) + identical_value_cases(ctx) + table_cases(ctx) + nan_table_cases(ctx) + cli_order_cases(ctx)
     failures, stats = differential(ctx, cases, imports=IMPORTS, impl=impl, expr=expr, judge=judge, shrink=shrink,
                                    nontrivial=nontrivial, per_file=200)
     hist = {}
@@ -616,8 +686,11 @@ def run(ctx, replay=None, proofs_ok=True):
     cov = {"evaluations": stats["evaluations"], "distinct_nontrivial": stats["distinct_nontrivial"],
            "rule": "corpus (F8 witness, empty/single, key mismatches, empty arrays, 8 results) + random lists of 1..8 results "
                    "(0..4 statistics, 0..3 arrays; lengths equal / one differing / random / with empties; dict insertion orders "
-                   "permuted; key sets differing in one key) + evo_res --save_table end to end on 1..4 result zips "
+                   "permuted; key sets differing in one key) + lists of 2..8 results with IDENTICAL info/statistics/shared arrays "
+                   "(all copies, or one result - first, middle or last - with one extra / missing array or statistic key) + evo_res --save_table end to end on 1..4 result zips "
                    "(labels from est_name basename / file names / --merge, duplicate labels, results from evo_ape/evo_rpe) + "
+                   "evo_res --save_table on 2..4 result zips where one or two files store NaN / infinite statistics or lack one "
+                   "statistic (the other files' statistics must stay in the table; a NaN statistic's cell may be empty) + "
                    "evo_res command-line runs with the files given in non-lexicographic order (9_ape.zip 10_ape.zip) and with a "
                    "file listed twice, --merge judged on label, statistics and the exported merged error array (unequal / equal "
                    "lengths) against the result files in the GIVEN order; "
